@@ -1275,3 +1275,181 @@ Proof.
   - unfold ts2, invalidate_tags. destruct (dirty_of st); [apply deadok_inherit, deadok_map_inval; exact DK1|apply deadok_inherit; exact DK1].
   - unfold ts2, invalidate_tags, all. destruct (dirty_of st); apply closed_inherit.
 Qed.
+
+(* ---------------------------------------------------------------- import completion keeps the core invariant *)
+Lemma tcore_frame st st' : tags st' = tags st -> next st' = next st -> m_upd st' = m_upd st -> m_rst st' = m_rst st ->
+  m_add st' = m_add st -> jtag st' = jtag st -> convs st' = convs st -> jconv st' = jconv st -> idx st' = idx st ->
+  jmerge st' = jmerge st -> (forall n r, jimp st' = Some (mkImp n (Some r)) -> jimp st = Some (mkImp n (Some r))) ->
+  Tcore st -> Tcore st'.
+Proof.
+  intros F1 F2 F3 F4 F5 F6 F7 F8 F9 F10 F11 (A1 & A2 & A3 & A4 & A5 & A6 & A7 & A8 & A9 & A10 & A11 & A12).
+  unfold Tcore, tagjob_ok, convs_ok, mergejob_ok, impjob_t, resp_t, clean, dirty_of, all. rewrite F1, F2, F3, F4, F5, F6, F7, F8, F9, F10.
+  split; [exact A1|split; [exact A2|split; [exact A3|split; [exact A4|split; [exact A5|split; [exact A6|split; [exact A7|
+    split; [exact A8|split; [exact A9|split; [exact A10|split; [exact A11|]]]]]]]]]]].
+  intros n r E. apply (A12 n r). apply F11. exact E.
+Qed.
+
+Lemma ones_is0 n : is0 (ones n) = true -> n = 0.
+Proof.
+  intros H. apply is0_true in H. destruct (N.eq_dec n 0) as [E|E]; [exact E|].
+  assert (mem 0 (ones n) = true) as M by (apply mem_ones; lia). rewrite H, mem_0 in M. discriminate.
+Qed.
+
+Lemma tcore_import_core st r cu q tc ca ve un h vw :
+  Tcore st -> resp_t st r -> ir_idx r <> [] ->
+  Tcore (mkSt (ir_next r) (invalidate_tags repaired (ones (ir_next r)) (ir_upd r) (ir_rst r) (ir_add r) (tags st))
+              (union (m_upd st) (ir_upd r)) (union (m_rst st) (ir_rst r)) (union (m_add st) (ir_add r))
+              cu q (convs st) tc ca ve (idx st ++ ir_idx r) un None (jtag st) (jconv st) (jmerge st) h vw).
+Proof.
+  intros (A1 & A2 & A3 & A4 & A5 & A6 & A7 & A8 & A9 & A10 & A11 & A12) (P1 & (R1 & R2 & R3 & R4) & R5 & R6) NE.
+  set (nx' := ir_next r).
+  pose proof (grow_invalidate_tags repaired nx' (ir_upd r) (ir_rst r) (ir_add r) (tags st)) as G.
+  assert (bounded nx' (ir_upd r)) as BU by (intros i Hi; apply R2 in Hi; unfold nx'; lia).
+  assert (bounded nx' (ir_rst r)) as BR by (intros i Hi; apply R3 in Hi; unfold nx'; lia).
+  assert (bounded nx' (ir_add r)) as BA by (intros i Hi; apply R5; exact Hi).
+  assert (u_bounded nx' (invalidate_tags repaired (ones nx') (ir_upd r) (ir_rst r) (ir_add r) (tags st))) as UB.
+  { unfold invalidate_tags. apply u_bounded_inherit. apply (ub_map_inval repaired (next st)); try assumption. apply tags_u_bounded. exact A4. }
+  unfold Tcore. simpl. fold nx'.
+  split; [eapply sorted_same; [eapply grow_same; exact G|exact A1]|
+  split; [eapply ranked_same; [eapply grow_same; exact G|exact A2]|
+  split; [unfold invalidate_tags; apply deadok_inherit, deadok_map_inval; exact A3|
+  split; [eapply tb_from; [exact R1|exact A4|exact G|exact UB]|
+  split; [apply union_bounded; [eapply bounded_mono; [exact R1|exact A5]|exact BU]|
+  split; [apply union_bounded; [eapply bounded_mono; [exact R1|exact A6]|exact BR]|
+  split; [apply union_bounded; [eapply bounded_mono; [exact R1|exact A7]|exact BA]|
+  split; [unfold invalidate_tags; apply closed_inherit|split; [|split; [|split; [|]]]]]]]]]]].
+  - intros j Hj. simpl in Hj. destruct (A9 j Hj) as (B1 & B2 & B3 & B4 & B5 & B6). simpl.
+    split; [eapply bounded_mono; [exact R1|exact B1]|split; [eapply bounded_mono; [exact R1|exact B2]|
+    split; [intros x; eapply bounded_mono; [exact R1|apply B3]|split; [|split; [|intros res E; eapply bounded_mono; [exact R1|exact (B6 res E)]]]]]].
+    + intros C. unfold clean in C. simpl in C.
+      assert (clean st j = true) as C0.
+      { unfold clean. destruct (tget (tj_name j) (tags st)) as [ot|] eqn:T.
+        - destruct (grow_tget _ _ _ _ _ G T) as (ot' & T' & ED & _). rewrite T', ED in C.
+          apply andb_true_iff in C. destruct C as (C1 & C2). rewrite C1. simpl.
+          rewrite (u1_of_tm (tags st)) in C2 by (intros x; apply (grow_tm nx'); exact G).
+          unfold u1_of in *. unfold all in *. simpl in C2. destruct (existsb _ (d_subt (tj_def j))); [|exact C2].
+          fold nx' in C2. apply ones_is0 in C2. assert (next st = 0) as -> by lia. reflexivity.
+        - rewrite (grow_tget_none _ _ _ _ G T) in C. discriminate. }
+      destruct (B4 C0) as (ot & i & T & Hi). destruct (grow_tget _ _ _ _ _ G T) as (ot' & T' & _ & _ & GU).
+      exists ot', i. split; [exact T'|]. apply GU; [|exact Hi].
+      destruct (tget_In _ _ _ T) as (I & _). pose proof (proj1 (A4 _ _ I) i Hi). lia.
+    + intros DF. exfalso. destruct (dirty_false _ DF) as (U0 & R0 & M0). simpl in U0, R0, M0.
+      apply union_eq_0 in U0. apply union_eq_0 in R0. apply union_eq_0 in M0.
+      destruct (R6 NE) as (i & Hi). rewrite !mem_union in Hi. destruct U0 as (_ & E1). destruct R0 as (_ & E2). destruct M0 as (_ & E3).
+      rewrite E1, E2, E3, !mem_0 in Hi. discriminate.
+  - exact A10.
+  - intros j Hj. simpl in Hj. destruct (A11 j Hj) as (L1 & L2 & L3). simpl. rewrite app_length. split; [exact L1|split; [lia|exact L3]].
+  - intros n0 r0 E. simpl in E. discriminate.
+Qed.
+
+Lemma tcore_cimp st p n r : Tcore st -> jimp st = Some (mkImp n (Some r)) -> Tcore (step repaired p (AComplete JImport) st).
+Proof.
+  intros TC J. pose proof TC as (A1 & A2 & A3 & A4 & A5 & A6 & A7 & A8 & A9 & A10 & A11 & A12).
+  pose proof (A12 n r J) as RT. simpl. rewrite J. apply tcore_starts.
+  assert (forall st1, Tcore st1 -> jimp st1 = None ->
+     Tcore (match skipn (ir_proc r) (queue st1) with
+            | [] => set_queue st1 (skipn (ir_proc r) (queue st1))
+            | _ :: _ => set_jimp (set_queue st1 (skipn (ir_proc r) (queue st1))) (Some (mkImp (length (skipn (ir_proc r) (queue st1))) None)) end)) as HQ.
+  { intros st1 H1 J1. destruct (skipn (ir_proc r) (queue st1)); apply (tcore_frame st1); try reflexivity; try exact H1;
+      intros nn rr E; simpl in E; try discriminate. rewrite J1 in E. discriminate. }
+  destruct (ir_idx r) eqn:EI.
+  - apply HQ; [|reflexivity]. apply (tcore_frame st); try reflexivity; [|exact TC]. intros nn rr E. simpl in E. discriminate.
+  - apply HQ; [|reflexivity]. simpl.
+    assert (HC := tcore_import_core st r (union (m_cupd st) (union (ir_upd r) (ir_rst r))) (queue st) (toconv st) (cache st)
+                    (bump (ver st) (union (union (ir_upd r) (ir_rst r)) (ir_add r))) (unmerge st) (r :: hist st) (views st) TC RT
+                    ltac:(rewrite EI; discriminate)).
+    revert HC. rewrite EI. apply tcore_frame; try reflexivity. intros nn rr E. exact E.
+Qed.
+
+(* ---------------------------------------------------------------- Tinv is preserved by every firing job step *)
+Lemma enabled_job a st : enabled st a -> job_action a.
+Proof. destruct a; simpl; auto. Qed.
+
+Theorem Tinv_jstep st st' : Tinv st -> jstep st st' -> Tinv st'.
+Proof.
+  intros TI (p & a & En & ->). pose proof (proj1 (Tinv_split st) TI) as (TC & CV & CI).
+  apply Tinv_split. split; [|split].
+  - destruct a; try (destruct En; fail).
+    + destruct En as ((n & J) & RT). eapply tcore_bimp; eassumption.
+    + destruct En as (j & J & R). eapply tcore_btag; eassumption.
+    + destruct En as (j & J & D). eapply tcore_bconv; eassumption.
+    + destruct En as (j & J & R). eapply tcore_bmerge; eassumption.
+    + destruct k; simpl in En.
+      * destruct En as (n & r & J). eapply tcore_cimp; eassumption.
+      * destruct En as (j & res & J & R). destruct j; simpl in R; subst. eapply tcore_ctag; eassumption.
+      * destruct En as (j & J & D). destruct j; simpl in D; subst. eapply tcore_cconv; eassumption.
+      * destruct En as (j & m & J & R). eapply tcore_cmerge; eassumption.
+  - apply covered_job_step; [reflexivity|eapply enabled_job; exact En|exact CV].
+  - apply cinv_step; [repeat split|..|exact CI].
+    destruct a; simpl; auto. destruct En as (_ & (_ & RO & _)). exact RO.
+Qed.
+
+(* ---------------------------------------------------------------- termination *)
+Theorem jstep_terminates : forall st, Tinv st -> Acc (fun b a => jstep a b) st.
+Proof.
+  assert (forall l st, mu st = l -> Tinv st -> Acc (fun b a => jstep a b) st) as G.
+  { intros l. induction (lexlt_wf l) as [l _ IH]. intros st E TI. constructor. intros st' JS.
+    apply (IH (mu st')); [rewrite <- E; apply jstep_decreases; assumption|reflexivity|eapply Tinv_jstep; eassumption]. }
+  intros st TI. apply (G (mu st)); [reflexivity|exact TI].
+Qed.
+
+(* a state in which no job step can fire has no job in flight, hence (covered) is quiescent *)
+Lemma stuck_no_job st : (forall st', ~ jstep st st') -> no_job st.
+Proof.
+  intros ST. unfold no_job.
+  assert (forall a, enabled st a -> False) as NE by (intros a En; apply (ST (step repaired 0 a st)); exists 0, a; split; [exact En|reflexivity]).
+  split; [|split; [|split]].
+  - destruct (jimp st) as [[n [r|]]|] eqn:J; [|exfalso|reflexivity].
+    + exfalso. apply (NE (AComplete JImport)). simpl. exists n, r. exact J.
+    + apply (NE (ABodyImport (mkIresp 1 0 0 0 (next st) []))). simpl. split; [exists n; exact J|].
+      unfold resp_t, iresp_ok. simpl. repeat split; try lia; try (intros i H; rewrite mem_0 in H; discriminate); try congruence.
+  - destruct (jtag st) as [j|] eqn:J; [|reflexivity]. exfalso. destruct (tj_res j) as [res|] eqn:R.
+    + apply (NE (AComplete JTag)). simpl. exists j, res. split; assumption.
+    + apply (NE (ABodyTag [])). simpl. exists j. split; assumption.
+  - destruct (jconv st) as [j|] eqn:J; [|reflexivity]. exfalso. destruct (cj_done j) eqn:D.
+    + apply (NE (AComplete JConvert)). simpl. exists j. split; assumption.
+    + apply (NE ABodyConvert). simpl. exists j. split; assumption.
+  - destruct (jmerge st) as [j|] eqn:J; [|reflexivity]. exfalso. destruct (mj_res j) as [m|] eqn:R.
+    + apply (NE (AComplete JMerge)). simpl. exists j, m. split; assumption.
+    + apply (NE ABodyMerge). simpl. exists j. split; assumption.
+Qed.
+
+Theorem stuck_quiescent st : Tinv st -> (forall st', ~ jstep st st') -> quiescent st /\ all_certain (tags st) = true.
+Proof.
+  intros TI ST. pose proof (proj1 (Tinv_split st) TI) as ((So & Ra & Dk & _) & CV & _).
+  pose proof (rest_quiescent st CV (stuck_no_job st ST)) as Q. split; [exact Q|].
+  destruct Q as (_ & FE & _). destruct (all_certain (tags st)) eqn:AC; [reflexivity|].
+  exfalso. apply (eligible_exists (tags st) So Ra (deadok_dead_clean _ Dk) AC). exact FE.
+Qed.
+
+(* ---------------------------------------------------------------- schedules *)
+Inductive jsteps : state -> state -> Prop :=
+| js_refl st : jsteps st st
+| js_step st st' st'' : jstep st st' -> jsteps st' st'' -> jsteps st st''.
+
+Lemma Tinv_jsteps st st' : Tinv st -> jsteps st st' -> Tinv st'.
+Proof. intros TI H. induction H; [exact TI|]. apply IHjsteps. eapply Tinv_jstep; eassumption. Qed.
+
+Theorem schedules_end_quiescent st st' : Tinv st -> jsteps st st' -> (forall st'', ~ jstep st' st'') ->
+  quiescent st' /\ all_certain (tags st') = true.
+Proof. intros TI H ST. apply stuck_quiescent; [eapply Tinv_jsteps; eassumption|exact ST]. Qed.
+
+(* the initial state satisfies the invariant *)
+Lemma Tinv_init cs : NoDup cs -> Tinv (init cs).
+Proof.
+  intros ND. apply Tinv_split. split; [|split].
+  - unfold Tcore. simpl.
+    split; [repeat split; intros k' t' HI; repeat (destruct HI as [HI|HI]; [inversion HI; subst; reflexivity|]); destruct HI|].
+    split; [intros n t HI L; simpl in HI; repeat (destruct HI as [HI|HI]; [inversion HI; subst; discriminate|]); destruct HI|].
+    split; [intros n t HI L; simpl in HI; repeat (destruct HI as [HI|HI]; [inversion HI; subst; repeat split|]); destruct HI|].
+    split; [intros n t HI; simpl in HI; repeat (destruct HI as [HI|HI]; [inversion HI; subst; split; apply bounded_0|]); destruct HI|].
+    split; [apply bounded_0|split; [apply bounded_0|split; [apply bounded_0|]]].
+    split; [repeat split; intros x Hx; destruct Hx|].
+    split; [intros j Hj; discriminate|split; [split; [exact ND|intros j Hj; discriminate]|split; [intros j Hj; discriminate|intros n r Hj; discriminate]]].
+  - split; [|split; [|split]].
+    + intros H. exfalso. apply H. reflexivity.
+    + intros c _ H. exfalso. apply H. reflexivity.
+    + reflexivity.
+    + intros H. exfalso. apply H. reflexivity.
+  - apply cinv_init.
+Qed.
